@@ -2,7 +2,7 @@
 C01 — a 'valid' verdict is sound in every logic.
 
 Deciding method (DESIGN §6 C01):
-  * generic Lean theorem `C01_valid_sound_partial` (Ptx/Props/C01.lean): for ANY finite sequence of
+  * generic Lean theorem `C01_valid_sound` (Ptx/Props/C01.lean): for ANY finite sequence of
     legal steps from the trunk — hence every option combination, tie-break order, build/step —
     a closed tableau has no countermodel in the logic's documented semantics; instantiated per
     logic (`Ptx.Gen.Obl.<L>.c01_valid_sound`) from kernel-evaluated side conditions on the rule /
@@ -127,8 +127,10 @@ def run(ctx: Ctx):
         elif o['valid'] and int(hd.get('unsound', 0)) > 0:
             stats['used-unsound-rule'] += 1
             unsound_used = True
-        elif o['valid'] and int(hd.get('quant', 0)) == 0:
+        elif o['valid']:
             stats['theorem-applies'] += 1
+            if int(hd.get('quant', 0)) > 0:
+                stats['theorem-applies-with-quantifier-steps'] += 1
         prem = [wire.dec_sent(s) for s in j['premises']]
         conc = wire.dec_sent(j['conclusion'])
         # independent oracle on every valid verdict, run in the worker (bounded search; only ever used to find a replay)
@@ -160,7 +162,7 @@ def run(ctx: Ctx):
                      'branches compared node for node')
     for j, o, sd in good[:3]:
         ctx.sample(dict(argument=tabrun.arg_text(j), valid=o['valid'], steps=o['nsteps'], order_seed=sd))
-    ctx.assumptions += ['the theorem covers derivations without quantifier-rule steps (quantifier layer not proved yet); runs with quantifier steps are '
-                        'covered by replay legality + the bounded countermodel search only',
+    ctx.assumptions += ['the theorem covers operator, quantifier, modal, closure, frame, identity and quit-flag steps; a quantifier step is legal in the model '
+                        'only on a compound whose body does not re-bind its variable and has nothing uninterpreted inside (true of every parsed sentence)',
                         'documented semantics (Spec.lean); structures: arbitrary worlds/domains, classical identity = real identity',
                         'the bounded countermodel search is used only to find replays, never as evidence that the property holds']
